@@ -161,6 +161,17 @@ def run(ctx):
             for j in (0, 1):
                 eq(ctx, "R5", f"{k}: explicit wavelength vector, element {j} = scalar call at that wavelength (call {call_no})",
                    items[j], scal[j][k], site, nonzero=[rho * Me])
+    # ... and as a vector of whole numbers (an integer array: a result built "like" the input must not inherit its dtype)
+    whole = (sp.Integer(3), sp.Integer(4))
+    scal_i = [spec.unpack(Ie.call(nse, [dict(compe)], {"density": rho, "wavelength": l})) for l in whole]
+    gveci = spec.unpack(Ie.call(nse, [dict(compe)], {"density": rho, "wavelength": Vec(whole)}))
+    for k in spec.OUTPUTS:
+        v = gveci[k]
+        items = list(v.items) if isinstance(v, Vec) else [v, v]
+        for j in (0, 1):
+            if len(items) == 2:
+                eq(ctx, "R5", f"{k}: vector of whole-number wavelengths, element {j} = scalar call at that wavelength",
+                   items[j], scal_i[j][k], site, nonzero=[rho * Me])
     # R3 again, for a compound with an energy-dependent isotope (its scattering length is looked up in a table: the
     # lookup must be the same whichever of energy= / wavelength= named the beam)
     EFe = Ie.global_name("nsf", "ENERGY_FACTOR")
@@ -169,7 +180,23 @@ def run(ctx):
     for k in spec.OUTPUTS:
         eq(ctx, "R3", f"{k}: energy=E equals wavelength=neutron_wavelength(E) with an energy-dependent isotope", gee[k], gwe[k], site,
            nonzero=[rho * Me])
-    ctx.floor("R5", 41)
+    # the SLD-only entry points name the beam the same way (module function, deprecated alias, Formula method)
+    slds = ("sld_re", "sld_im", "sld_inc")
+    fme = Ie.call(Ie.global_name("formulas", "formula"), [dict(compe)], {"density": rho})
+    routes = [("nsf.neutron_sld", lambda **kw: Ie.call(Ie.global_name("nsf", "neutron_sld"), [dict(compe)], dict(kw, density=rho))),
+              ("Formula.neutron_sld", lambda **kw: Ie.call(Ie.getattr(fme, "neutron_sld"), [], dict(kw)))]
+    if ctx.src.has_func("nsf.neutron_sld_from_atoms"):
+        routes.append(("nsf.neutron_sld_from_atoms", lambda **kw: Ie.call(Ie.global_name("nsf", "neutron_sld_from_atoms"), [dict(compe)], dict(kw, density=rho))))
+    for rname, route in routes:
+        se = route(energy=E)
+        sw = route(wavelength=sp.sqrt(EFe / E))
+        for k, a_, b_, ref in zip(slds, se, sw, (gee[k_] for k_ in slds)):
+            eq(ctx, "R3", f"{k}: {rname}(energy=E) equals {rname}(wavelength=neutron_wavelength(E)) with an energy-dependent isotope", a_, b_,
+               fsite(ctx, rname if rname.startswith("nsf.") else "formulas.Formula.neutron_sld"), nonzero=[rho * Me])
+            eq(ctx, "R3", f"{k}: {rname}(energy=E) is neutron_scattering(energy=E)'s value", a_, ref,
+               fsite(ctx, rname if rname.startswith("nsf.") else "formulas.Formula.neutron_sld"), nonzero=[rho * Me])
+    ctx.floor("R5", 55)
+    ctx.floor("R3", 27)
 
     # R6 signs: on the scattering kernel itself with opaque inputs, so that the structure
     # (abs, max(.,0), squares) is what decides the sign - not the particular composition
